@@ -24,6 +24,7 @@ APlain          == Plain
 AAdd(f, df)     == FA(f, INF, "no", df, FALSE, 1, 0, NoAs)
 ARem(f, to, rm) == FA(f, to, rm, "default", FALSE, 1, 0, NoAs)
 AConv(c, old)   == FA(c, INF, "no", "default", FALSE, 0, c - 1, old)   \* converted at version c
+AConvLate(b, c, df, old) == FA(c, INF, "no", df, FALSE, b, c - 1, old)  \* ADDED at version b >= 1 with type old, converted at c > b
 
 \* (type, attribute) choices for one field
 FieldHist ==
@@ -34,6 +35,9 @@ FieldHist ==
     \cup { <<P("u16"), ARem(1, 1, rm)>> : rm \in {"removed", "abi"} }
     \cup { <<P("u32"), AConv(c, P("u8"))>> : c \in {1, 3} }
     \cup { <<P("u64"), AConv(1, P("u16"))>>, <<Opt(P("u8")), AConv(2, P("u8"))>> }
+    \* two edits of ONE field: added after version 0, its type changed later (files older than the addition get the default)
+    \cup { <<P("u32"), AConvLate(1, 2, "default", P("u8"))>>, <<P("u64"), AConvLate(1, 3, "default", P("u16"))>>,
+           <<Opt(P("u8")), AConvLate(2, 3, "default", P("u8"))>>, <<P("u32"), AConvLate(1, 2, "fn", P("u16"))>> }
 PlainFields == { <<P("u8"), APlain>>, <<Str, APlain>>, <<P("u16"), APlain>> }
 AbiFieldHist == { h \in FieldHist : h[2].rm # "removed" /\ ~HasAs(h[2]) }
 
